@@ -1031,6 +1031,10 @@ class Summary(object):
             for t in targets:
                 self.assign(t, value, env, pc, fr, st, aug=isinstance(st, ast.AugAssign))
             return pc
+        if isinstance(st, ast.Expr) and isinstance(st.value, ast.Call) and P.call_name(st.value) == 'sys.exit':
+            # sys.exit(x) is `raise SystemExit(x)`
+            exc = ast.Call(func=ast.Name(id='SystemExit', ctx=ast.Load()), args=list(st.value.args), keywords=[])
+            return self.stmt(ast.fix_missing_locations(ast.copy_location(ast.Raise(exc=ast.copy_location(exc, st), cause=None), st)), env, pc, fr)
         if isinstance(st, ast.Expr):
             v = self.prep(st.value, env, pc, fr)
             pc = conj(pc, self.after_call_pc)
